@@ -3,9 +3,98 @@
 package poseidon
 
 // Contracts checked by /verif (govc). Comments only; see /verif/DESIGN.md.
+// C05: the gadgets compute the Poseidon permutation of /verif/spec/02_poseidon.smt2 over the
+// repository's own tables, for every input; widths t = 2 and t = 3 are verified as two cases.
+
+//@ func (sbox) DefineGadget
+//@   property C05
+//@   returns Variable
+//@   ensures result == poseidon.pow5(s.Inp)
+//@   ensures inField(result)
+//@   reveal field.mul poseidon.pow5
+
+//@ func (mds) DefineGadget
+//@   property C05
+//@   returns []Variable
+//@   requires len(m.Inp) == 2 || len(m.Inp) == 3
+//@   cases len(m.Inp) == 2 | len(m.Inp) == 3
+//@   let t = len(m.Inp)
+//@   ensures len(result) == t
+//@   ensures forall i :: 0 <= i && i < t ==> result[i] == poseidon.mix(t, i, m.Inp[0], m.Inp[1], m.Inp[2])
+//@   ensures forall i :: 0 <= i && i < t ==> inField(result[i])
+//@   reveal field.mul field.add poseidon.mix
+
+//@ func (halfRound) DefineGadget
+//@   property C05
+//@   returns []Variable
+//@   requires (len(h.Inp) == 2 || len(h.Inp) == 3) && len(h.Consts) == len(h.Inp)
+//@   cases len(h.Inp) == 2 | len(h.Inp) == 3
+//@   modifies h.Inp
+//@   let t = len(h.Inp)
+//@   ensures len(result) == t
+//@   ensures forall i :: 0 <= i && i < t ==> result[i] == poseidon.mix(t, i,
+//@              poseidon.arkS(old(h.Inp[0]), h.Consts[0], true),
+//@              poseidon.arkS(old(h.Inp[1]), h.Consts[1], false),
+//@              poseidon.arkS(old(h.Inp[2]), h.Consts[2], false))
+//@   ensures forall i :: 0 <= i && i < t ==> inField(result[i])
+//@   reveal field.add poseidon.arkS poseidon.mix
+
+//@ func (fullRound) DefineGadget
+//@   property C05
+//@   returns []Variable
+//@   requires (len(h.Inp) == 2 || len(h.Inp) == 3) && len(h.Consts) == len(h.Inp)
+//@   cases len(h.Inp) == 2 | len(h.Inp) == 3
+//@   modifies h.Inp
+//@   let t = len(h.Inp)
+//@   ensures len(result) == t
+//@   ensures forall i :: 0 <= i && i < t ==> result[i] == poseidon.mix(t, i,
+//@              poseidon.arkS(old(h.Inp[0]), h.Consts[0], true),
+//@              poseidon.arkS(old(h.Inp[1]), h.Consts[1], true),
+//@              poseidon.arkS(old(h.Inp[2]), h.Consts[2], true))
+//@   ensures forall i :: 0 <= i && i < t ==> inField(result[i])
+//@   reveal field.add poseidon.arkS poseidon.mix
+
+//@ func (poseidon) DefineGadget
+//@   property C05
+//@   returns []Variable
+//@   requires len(g.Inputs) == 2 || len(g.Inputs) == 3
+//@   cases len(g.Inputs) == 2 | len(g.Inputs) == 3
+//@   modifies g.Inputs
+//@   let t = len(g.Inputs)
+//@   let x0 = old(g.Inputs[0])
+//@   let x1 = old(g.Inputs[1])
+//@   let x2 = old(g.Inputs[2])
+//@   ensures len(result) == t
+//@   ensures forall j :: 0 <= j && j < t ==> result[j] == poseidon.st(t, 8 + poseidon.RP(t), j, x0, x1, x2)
+//@   ensures forall j :: 0 <= j && j < t ==> inField(result[j])
+//@   lemmas st_end st_split
+//@   reveal poseidon.mix
+//@   loop 1
+//@     invariant 0 <= i && i <= 4 && len(state) == t
+//@     invariant forall j :: 0 <= j && j < t ==> state[j] == poseidon.st(t, i, j, x0, x1, x2)
+//@     invariant forall j :: 0 <= j && j < t ==> inField(state[j])
+//@     decreases 4 - i
+//@   loop 2
+//@     invariant 0 <= i && i <= poseidon.RP(t) && len(state) == t
+//@     invariant forall j :: 0 <= j && j < t ==> state[j] == poseidon.st(t, 4 + i, j, x0, x1, x2)
+//@     invariant forall j :: 0 <= j && j < t ==> inField(state[j])
+//@     decreases poseidon.RP(t) - i
+//@   loop 3
+//@     invariant 0 <= i && i <= 4 && len(state) == t
+//@     invariant forall j :: 0 <= j && j < t ==> state[j] == poseidon.st(t, 4 + poseidon.RP(t) + i, j, x0, x1, x2)
+//@     invariant forall j :: 0 <= j && j < t ==> inField(state[j])
+//@     decreases 4 - i
+
+//@ func (Poseidon1) DefineGadget
+//@   property C05
+//@   returns Variable
+//@   ensures result == poseidon.hash1(g.In)
+//@   ensures inField(result)
+//@   reveal poseidon.hash1
 
 //@ func (Poseidon2) DefineGadget
 //@   property C05
 //@   returns Variable
 //@   ensures result == merkle.H2(g.In1, g.In2)
 //@   ensures inField(result)
+//@   reveal poseidon.hash2 merkle.H2
